@@ -205,7 +205,7 @@ class ndarray(object):
 
     def _arith(self, other, fn, reverse=False, force=None):
         if other is masked:
-            return _all_masked_like(self)
+            return _all_masked_like(self, True)
         a, b, shape, kb = self._operands(other)
         ka = self.kind
         if ka == 'b':
@@ -451,20 +451,25 @@ class _MaskedConstant(object):
 
     def _op(self, o=None):
         if isinstance(o, ndarray):
-            return _all_masked_like(o)
+            return _all_masked_like(o, True)
         return self
     __add__ = __radd__ = __sub__ = __rsub__ = __mul__ = __rmul__ = __truediv__ = __rtruediv__ = _op
-    __lt__ = __le__ = __gt__ = __ge__ = _op
+
+    def _cmpop(self, o=None):
+        if isinstance(o, ndarray):
+            return _all_masked_like(o)
+        return self
+    __lt__ = __le__ = __gt__ = __ge__ = _cmpop
     __neg__ = __abs__ = lambda self: self
 
     def __float__(self):
         raise Outside("float() of the numpy.ma.masked constant (nan)")
 
     def __eq__(self, o):
-        return self._op(o)
+        return self._cmpop(o)
 
     def __ne__(self, o):
-        return self._op(o)
+        return self._cmpop(o)
 
     __hash__ = None
 
@@ -475,9 +480,11 @@ class _MaskedConstant(object):
         return v
 
 
-def _all_masked_like(a):
+def _all_masked_like(a, arith=False):
     d = a.data if isinstance(a, MaskedArray) else a
     k = d.kind if d.kind != 'b' else 'i'
+    if arith:
+        k = 'f'             # numpy.ma.masked is a float64 0-d array: arithmetic with it promotes to float64
     return MaskedArray(ndarray._new(d.cells(), d.shape, k), ndarray._new([_T()] * d.size, d.shape, 'b'))
 
 
@@ -521,16 +528,26 @@ class MaskedArray(ndarray):
                 for p in self._mask.idx.ravel().tolist():
                     self._mask.buf[p] = _F()
             return
+        if self._mask is None:
+            self._mask = ndarray._new([_F()] * self.size, self.shape, 'b')
         if m is True:
-            self._mask = ndarray._new([_T()] * self.size, self.shape, 'b')
+            for p in self._mask.idx.ravel().tolist():
+                self._mask.buf[p] = _T()
             return
         if isinstance(m, MaskedArray):
             m = m.data
-        if self._mask is None:
-            self._mask = ndarray._new([_F()] * self.size, self.shape, 'b')
-        mi = _np.broadcast_to(m.idx, self.shape)
-        for p, q in zip(self._mask.idx.ravel().tolist(), mi.ravel().tolist()):
-            self._mask.buf[p] = m.buf[q]
+        if isinstance(m, (list, tuple)):
+            m = _core_array(list(m), dtype='b')
+        # numpy: current_mask.flat = mask  (in place; the value is read flat and recycled)
+        src = [m.buf[q] for q in m.idx.ravel().tolist()]
+        if not src:
+            if self.size == 0:
+                return
+            raise ValueError("cannot set the mask from an empty sequence")
+        if m.kind != 'b':
+            src = [(c != 0) for c in src]
+        for j, p in enumerate(self._mask.idx.ravel().tolist()):
+            self._mask.buf[p] = src[j % len(src)]
 
     @property
     def fill_value(self):
@@ -568,6 +585,8 @@ class MaskedArray(ndarray):
         return self.data
 
     def filled(self, fv=None):
+        if self._mask is None:
+            return self.data            # numpy returns self._data itself when there is no mask
         fv = self.fill_value if fv is None else fv
         t, k = _scalar_term(fv)
         return ndarray._new([z3.If(m, t, x) for m, x in zip(self.maskcells(), self.cells())], self.shape, self.kind)
@@ -591,7 +610,7 @@ class MaskedArray(ndarray):
 
     def _binop(self, other, fn, reverse=False):
         if other is masked:
-            return _all_masked_like(self)
+            return _all_masked_like(self, True)
         od = other.data if isinstance(other, MaskedArray) else other
         r = ndarray._arith(self.data, od, fn, reverse)
         m = self._mask_or(other, r.shape)
@@ -612,12 +631,14 @@ class MaskedArray(ndarray):
     def __rmul__(self, o): return self._binop(o, operator.mul, True)
 
     def __neg__(self):
-        return MaskedArray(-self.data, None if self._mask is None else self._mask.copy(), self._fill)
+        # numpy's masked unary ufuncs (negative, absolute) give the result the operand's OWN mask array (no copy)
+        # (an operand without a mask array gets a fresh all-False one: __array_wrap__ uses getmaskarray)
+        return MaskedArray(-self.data, self._mask if self._mask is not None else ndarray._new([_F()] * self.size, self.shape, 'b'), self._fill)
 
     def _div(self, num, den):
         """masked true division num/den (either may be scalar/ndarray/MaskedArray) -> MaskedArray"""
         if num is masked or den is masked:
-            return _all_masked_like(self)
+            return _all_masked_like(self, True)
         base = num if isinstance(num, ndarray) else den
         a, b, shape, _ = ndarray._operands(num.data if isinstance(num, ndarray) else _full_like(base, num),
                                            den.data if isinstance(den, ndarray) else den)
@@ -1027,15 +1048,16 @@ def _ma_array(data, dtype=None, copy=False, mask=nomask, fill_value=None, **kw):
                     mm = ndarray._new(mm.cells(), d.shape, 'b')
                 else:
                     raise ValueError("Mask and data not compatible: data size is %d, mask size is %d." % (d.size, mm.size))
-            else:
+            elif copy or isinstance(mask, (list, tuple)):
                 mm = mm.copy()
+            # else: numpy keeps the very mask array it was given (np.array(mask, copy=False))
         m = mm if own is None else ndarray._new([_simp(z3.Or(a, b)) for a, b in zip(mm.cells(), own.cells())], d.shape, 'b')
     return MaskedArray(d, m, fill_value)
 
 
 def _ma_asarray(x, dtype=None, order=None):
     if isinstance(x, MaskedArray) and dtype is None:
-        return x
+        return MaskedArray(ndarray(x.buf, x.idx, x.kind), x._mask, x._fill)     # a new view: same data, same mask array
     if isinstance(x, ndarray) and dtype is None:
         return MaskedArray(x, None)
     return _ma_array(x, dtype=dtype, copy=False)
